@@ -23,15 +23,7 @@ Theorem inf_retis_eq_Pspec_staircase01_5 : forall rp m ks lk,
   (1 <= m <= 5)%nat ->
   length ks = m -> (forall k, In k ks -> (1 <= k <= m)%nat) ->
   length lk = S m ->
-  let W := stair_matrix ks in
-  let locks := lk ++ [true] in
-  idle_idx locks <> [] ->
-  ~ perm (length (idle_idx locks)) (of_lists (idle_block W locks)) == 0 ->
-  exists P, inf_retis rp 1 W locks = Some P /\ is_Pspec_on_idle W locks (mget P).
+  refines_Pspec rp (stair_matrix ks) (lk ++ [true]).
 Proof.
-  intros rp m ks lk Hm Hl Hk Hlk W locks Hidle Hperm.
-  apply case_ok_sound; [|exact Hidle|exact Hperm].
-  pose proof (sweep01_le5 rp m Hm) as Hs. unfold sweep01 in Hs.
-  rewrite forallb_forall in Hs. specialize (Hs ks (in_all_supports m ks Hl Hk)).
-  rewrite forallb_forall in Hs. exact (Hs _ (in_all_locks m lk Hlk)).
+  intros rp m ks lk Hm. exact (sweep01_sound rp m (sweep01_le5 rp m Hm) ks lk).
 Qed.
